@@ -1767,7 +1767,10 @@ pub fn run(args: &Args, out: &mut Out) {
         let _ = out;
         let mut v: Vec<(&'static str, Vec<(String, String)>)> =
             ALL_TARGETS.iter().map(|t| (t.name(), observed_defines(*t).unwrap_or_default())).collect();
-        v.push((MTLB, observed_defines_mtlb().unwrap_or_default()));
+        // (a define list that cannot be observed is reported by `C18.defines mtlb`, not by every C18.pp program)
+        if let Ok(d) = observed_defines_mtlb() {
+            v.push((MTLB, d));
+        }
         v
     };
     if let Some(lines) = args.request_lines() {
